@@ -383,9 +383,49 @@ class Fmt2F(ast.NodeTransformer):
         return node
 
 
+class TestTemp(_Blocks):
+    """if L op R: ...  ->  _sf_l = L; if _sf_l op R: ...   when L is the first thing the test evaluates (plain `if`, not
+    elif), L is a call / subscript / attribute chain / arithmetic (no await, no walrus), so the evaluation order is kept."""
+
+    @staticmethod
+    def _slot(test):
+        node, path = test, None
+        while True:
+            if isinstance(node, ast.UnaryOp) and isinstance(node.op, ast.Not):
+                node, path = node.operand, (node, "operand")
+            elif isinstance(node, ast.BoolOp):
+                holder = node
+                node, path = node.values[0], (holder, 0)
+            elif isinstance(node, ast.Compare):
+                return (node, "left")
+            else:
+                return None
+
+    def __init__(self):
+        self.n = 0
+
+    def block(self, stmts, owner, fld):
+        if isinstance(owner, ast.If) and fld == "orelse" and len(stmts) == 1:
+            return stmts
+        out = []
+        for s in stmts:
+            if isinstance(s, ast.If):
+                sl = self._slot(s.test)
+                if sl is not None:
+                    holder, key = sl
+                    left = getattr(holder, key)
+                    if isinstance(left, (ast.Call, ast.Subscript, ast.BinOp)) and not any(isinstance(x, (ast.Await, ast.NamedExpr, ast.Yield, ast.YieldFrom, ast.Lambda)) for x in ast.walk(left)):
+                        self.n += 1
+                        name = f"_sf_l{self.n}"
+                        out.append(ast.Assign(targets=[ast.Name(id=name, ctx=ast.Store())], value=left, lineno=0))
+                        setattr(holder, key, ast.Name(id=name, ctx=ast.Load()))
+            out.append(s)
+        return out
+
+
 KINDS = {"rename": Renamer, "pad": Padder, "ifswap": IfSwap, "guard": Guard, "tempret": TempRet, "mergeif": MergeIf, "splitif": SplitIf,
          "elsedrop": ElseDrop, "walrusout": WalrusOut, "comp2loop": Comp2Loop, "cmpflip": CmpFlip, "notform": NotForm,
-         "lambda2def": Lambda2Def, "fmt2f": Fmt2F}
+         "lambda2def": Lambda2Def, "fmt2f": Fmt2F, "testtemp": TestTemp}
 
 
 def variant_source(src, kind):
